@@ -2,7 +2,8 @@
 // read_and_convert_image<P> == pixelwise color_convert of the native read, scanline reader rows,
 // read_view into a view inside an arena (nothing outside touched), any_image, file name vs FILE* vs
 // std::istream, read_image_info dimensions, and a too-small destination view is rejected.
-// One TU per format group (-DC13_PART=k):  0 bmp  1 pnm  2 targa  3 png 8-bit  4 jpeg  5 tiff 8-bit  6 tiff other  7 png 16-bit/sub-byte
+// One TU per format group (-DC13_PART=k):  0 bmp  1 pnm  2 targa  3 png 8-bit  4 jpeg  5 tiff gray8/rgb8
+// 6 tiff rgba8/gray16  7 png 16-bit  8 tiff rgb16/gray32f  9 tiff gray1/gray4  10 png sub-byte
 // A case = (file, path); files = repository fixtures + files written by GIL's writers + variants crafted
 // by the harness (top-down BMP, ASCII PNM, interlaced PNG, tiled/compressed TIFF).
 // See DESIGN.md section 5, C13.
@@ -16,11 +17,11 @@
 #include <boost/gil/extension/io/pnm.hpp>
 #elif C13_PART == 2
 #include <boost/gil/extension/io/targa.hpp>
-#elif C13_PART == 3 || C13_PART == 7
+#elif C13_PART == 3 || C13_PART == 7 || C13_PART == 10
 #include <boost/gil/extension/io/png.hpp>
 #elif C13_PART == 4
 #include <boost/gil/extension/io/jpeg.hpp>
-#elif C13_PART == 5 || C13_PART == 6
+#elif C13_PART == 5 || C13_PART == 6 || C13_PART == 8 || C13_PART == 9
 #include <boost/gil/extension/io/tiff.hpp>
 #define C13_TIFF 1
 #endif
@@ -605,7 +606,7 @@ static void run_file(entry_t const& e, int path, int sub) {
 #endif
 
 // =====================================================================================================
-#if C13_PART == 3 || C13_PART == 7
+#if C13_PART == 3 || C13_PART == 7 || C13_PART == 10
 typedef gil::png_tag tag_t;
 static const char* FMT = "png";
 // crafted directly with libpng: interlaced and palette files, which GIL's writer cannot produce
@@ -684,8 +685,8 @@ static void run_file(entry_t const& e, int path, int sub) {
 }
 #endif
 #if C13_PART == 7
-typedef gil::any_image<gil::gray16_image_t, gil::rgb16_image_t, gil::rgba16_image_t, gil::gray1_image_t, gil::gray2_image_t, gil::gray4_image_t, gil::rgb8_image_t> any_t;
-enum { K_GRAY16 = 0, K_RGB16, K_RGBA16, K_GRAY1, K_GRAY2, K_GRAY4, K_GRAY4_NOSCAN, K_RGB16_NOSCAN };
+typedef gil::any_image<gil::gray16_image_t, gil::rgb16_image_t, gil::rgba16_image_t, gil::rgb8_image_t> any_t;
+enum { K_GRAY16 = 0, K_RGB16, K_RGBA16, K_RGB16_NOSCAN };
 static void build_files() {
     add_fixture("png", "PngSuite/tbbn2c16.png", "rgb16-trns", K_RGBA16);
     add_fixture("png", "PngSuite/tbgn2c16.png", "rgb16-trns", K_RGBA16);
@@ -695,21 +696,14 @@ static void build_files() {
         add("gray16", vh::cat("written:gray16 ", s[0], "x", s[1]), written(gil::const_view(seeded_image<gil::gray16_image_t>(s[0], s[1], 100 + n)), info), K_GRAY16);
         add("rgb16", vh::cat("written:rgb16 ", s[0], "x", s[1]), written(gil::const_view(seeded_image<gil::rgb16_image_t>(s[0], s[1], 200 + n)), info), K_RGB16);
         add("rgba16", vh::cat("written:rgba16 ", s[0], "x", s[1]), written(gil::const_view(seeded_image<gil::rgba16_image_t>(s[0], s[1], 300 + n)), info), K_RGBA16);
-        { gil::gray1_image_t im(s[0], s[1]); cio::fill_view(gil::view(im), fs(400 + n), 0); add("gray1", vh::cat("written:gray1 ", s[0], "x", s[1]), written(gil::view(im), info), K_GRAY1); }
-        { gil::gray2_image_t im(s[0], s[1]); cio::fill_view(gil::view(im), fs(500 + n), 0); add("gray2", vh::cat("written:gray2 ", s[0], "x", s[1]), written(gil::view(im), info), K_GRAY2); }
-        { gil::gray4_image_t im(s[0], s[1]); cio::fill_view(gil::view(im), fs(600 + n), 0); add("gray4", vh::cat("written:gray4 ", s[0], "x", s[1]), written(gil::view(im), info), K_GRAY4); }
         ++n;
     }
     for (auto& s : LARGE) {
         add("gray16", vh::cat("written:gray16 ", s[0], "x", s[1]), written(gil::const_view(seeded_image<gil::gray16_image_t>(s[0], s[1], 700 + n)), info), K_GRAY16);
         add("rgb16", vh::cat("written:rgb16 ", s[0], "x", s[1]), written(gil::const_view(seeded_image<gil::rgb16_image_t>(s[0], s[1], 800 + n)), info), K_RGB16);
         add("rgba16", vh::cat("written:rgba16 ", s[0], "x", s[1]), written(gil::const_view(seeded_image<gil::rgba16_image_t>(s[0], s[1], 900 + n)), info), K_RGBA16);
-        { gil::gray1_image_t im(s[0], s[1]); cio::fill_view(gil::view(im), fs(1000 + n), 0); add("gray1", vh::cat("written:gray1 ", s[0], "x", s[1]), written(gil::view(im), info), K_GRAY1); }
-        { gil::gray2_image_t im(s[0], s[1]); cio::fill_view(gil::view(im), fs(1100 + n), 0); add("gray2", vh::cat("written:gray2 ", s[0], "x", s[1]), written(gil::view(im), info), K_GRAY2); }
-        { gil::gray4_image_t im(s[0], s[1]); cio::fill_view(gil::view(im), fs(1200 + n), 0); add("gray4", vh::cat("written:gray4 ", s[0], "x", s[1]), written(gil::view(im), info), K_GRAY4); }
         ++n;
     }
-    add("interlaced-gray4", "crafted:adam7 gray4 13x9", png_craft(13, 9, PNG_COLOR_TYPE_GRAY, 4, true, 1301), K_GRAY4_NOSCAN);
     add("interlaced-rgb16", "crafted:adam7 rgb16 10x7", png_craft(10, 7, PNG_COLOR_TYPE_RGB, 16, true, 1302), K_RGB16_NOSCAN);
 }
 static void run_file(entry_t const& e, int path, int sub) {
@@ -717,11 +711,37 @@ static void run_file(entry_t const& e, int path, int sub) {
     case K_GRAY16: checks<tag_t, gil::gray16_image_t, gil::gray16_image_t, any_t>(FMT, e.f, 0, true).run(path, sub); break;
     case K_RGB16: checks<tag_t, gil::rgb16_image_t, gil::rgb16_image_t, any_t>(FMT, e.f, 1, true).run(path, sub); break;
     case K_RGBA16: checks<tag_t, gil::rgba16_image_t, gil::rgba16_image_t, any_t>(FMT, e.f, 2, true).run(path, sub); break;
-    case K_GRAY1: checks<tag_t, gil::gray1_image_t, gil::gray1_image_t, any_t>(FMT, e.f, 3, true).run(path, sub); break;
-    case K_GRAY2: checks<tag_t, gil::gray2_image_t, gil::gray2_image_t, any_t>(FMT, e.f, 4, true).run(path, sub); break;
-    case K_GRAY4: checks<tag_t, gil::gray4_image_t, gil::gray4_image_t, any_t>(FMT, e.f, 5, true).run(path, sub); break;
-    case K_GRAY4_NOSCAN: checks<tag_t, gil::gray4_image_t, gil::gray4_image_t, any_t>(FMT, e.f, 5, false).run(path, sub); break;
     case K_RGB16_NOSCAN: checks<tag_t, gil::rgb16_image_t, gil::rgb16_image_t, any_t>(FMT, e.f, 1, false).run(path, sub); break;
+    }
+}
+#endif
+#if C13_PART == 10
+typedef gil::any_image<gil::gray1_image_t, gil::gray2_image_t, gil::gray4_image_t, gil::rgb8_image_t> any_t;
+enum { K_GRAY1 = 0, K_GRAY2, K_GRAY4, K_GRAY4_NOSCAN };
+static void build_files() {
+    gil::image_write_info<gil::png_tag> info;
+    int n = 0;
+    for (auto& s : SMALL) {
+        { gil::gray1_image_t im(s[0], s[1]); cio::fill_view(gil::view(im), fs(400 + n), 0); add("gray1", vh::cat("written:gray1 ", s[0], "x", s[1]), written(gil::view(im), info), K_GRAY1); }
+        { gil::gray2_image_t im(s[0], s[1]); cio::fill_view(gil::view(im), fs(500 + n), 0); add("gray2", vh::cat("written:gray2 ", s[0], "x", s[1]), written(gil::view(im), info), K_GRAY2); }
+        { gil::gray4_image_t im(s[0], s[1]); cio::fill_view(gil::view(im), fs(600 + n), 0); add("gray4", vh::cat("written:gray4 ", s[0], "x", s[1]), written(gil::view(im), info), K_GRAY4); }
+        ++n;
+    }
+    for (auto& s : LARGE) {
+        { gil::gray1_image_t im(s[0], s[1]); cio::fill_view(gil::view(im), fs(1000 + n), 0); add("gray1", vh::cat("written:gray1 ", s[0], "x", s[1]), written(gil::view(im), info), K_GRAY1); }
+        { gil::gray2_image_t im(s[0], s[1]); cio::fill_view(gil::view(im), fs(1100 + n), 0); add("gray2", vh::cat("written:gray2 ", s[0], "x", s[1]), written(gil::view(im), info), K_GRAY2); }
+        { gil::gray4_image_t im(s[0], s[1]); cio::fill_view(gil::view(im), fs(1200 + n), 0); add("gray4", vh::cat("written:gray4 ", s[0], "x", s[1]), written(gil::view(im), info), K_GRAY4); }
+        ++n;
+    }
+    add("interlaced-gray4", "crafted:adam7 gray4 13x9", png_craft(13, 9, PNG_COLOR_TYPE_GRAY, 4, true, 1301), K_GRAY4_NOSCAN);
+    add("gray1", "crafted:gray1 19x6", png_craft(19, 6, PNG_COLOR_TYPE_GRAY, 1, false, 1303), K_GRAY1);
+}
+static void run_file(entry_t const& e, int path, int sub) {
+    switch (e.kind) {
+    case K_GRAY1: checks<tag_t, gil::gray1_image_t, gil::gray1_image_t, any_t>(FMT, e.f, 0, true).run(path, sub); break;
+    case K_GRAY2: checks<tag_t, gil::gray2_image_t, gil::gray2_image_t, any_t>(FMT, e.f, 1, true).run(path, sub); break;
+    case K_GRAY4: checks<tag_t, gil::gray4_image_t, gil::gray4_image_t, any_t>(FMT, e.f, 2, true).run(path, sub); break;
+    case K_GRAY4_NOSCAN: checks<tag_t, gil::gray4_image_t, gil::gray4_image_t, any_t>(FMT, e.f, 2, false).run(path, sub); break;
     }
 }
 #endif
@@ -788,44 +808,32 @@ template <class Img> static void add_tiff_type(const char* type, int kind_scan, 
     }
 }
 #endif
+#ifdef C13_TIFF
+// parts: 5 gray8+rgb8   6 rgba8+gray16   8 rgb16+gray32f   9 gray1+gray4
 #if C13_PART == 5
-typedef gil::any_image<gil::gray8_image_t, gil::rgb8_image_t, gil::rgba8_image_t, gil::gray16_image_t> any_t;
-enum { K_GRAY8 = 0, K_RGB8, K_RGBA8, K_GRAY8_NOSCAN, K_RGB8_NOSCAN, K_RGBA8_NOSCAN };
-static void build_files() {
-    add_tiff_type<gil::gray8_image_t>("gray8", K_GRAY8, K_GRAY8_NOSCAN, 1000);
-    add_tiff_type<gil::rgb8_image_t>("rgb8", K_RGB8, K_RGB8_NOSCAN, 2000);
-    add_tiff_type<gil::rgba8_image_t>("rgba8", K_RGBA8, K_RGBA8_NOSCAN, 3000);
-    if (vh::thorough()) add_fixture("tiff", "test.tif", "rgba8-strip-lzw-fixture", K_RGBA8);
-}
-static void run_file(entry_t const& e, int path, int sub) {
-    switch (e.kind) {
-    case K_GRAY8: checks<tag_t, gil::gray8_image_t, gil::gray8_image_t, any_t>(FMT, e.f, 0, true).run(path, sub); break;
-    case K_RGB8: checks<tag_t, gil::rgb8_image_t, gil::rgb8_image_t, any_t>(FMT, e.f, 1, true).run(path, sub); break;
-    case K_RGBA8: checks<tag_t, gil::rgba8_image_t, gil::rgba8_image_t, any_t>(FMT, e.f, 2, true).run(path, sub); break;
-    case K_GRAY8_NOSCAN: checks<tag_t, gil::gray8_image_t, gil::gray8_image_t, any_t>(FMT, e.f, 0, false).run(path, sub); break;
-    case K_RGB8_NOSCAN: checks<tag_t, gil::rgb8_image_t, gil::rgb8_image_t, any_t>(FMT, e.f, 1, false).run(path, sub); break;
-    case K_RGBA8_NOSCAN: checks<tag_t, gil::rgba8_image_t, gil::rgba8_image_t, any_t>(FMT, e.f, 2, false).run(path, sub); break;
-    }
-}
+typedef gil::gray8_image_t T0; typedef gil::rgb8_image_t T1; static const char* N0 = "gray8"; static const char* N1 = "rgb8";
+#elif C13_PART == 6
+typedef gil::rgba8_image_t T0; typedef gil::gray16_image_t T1; static const char* N0 = "rgba8"; static const char* N1 = "gray16";
+#elif C13_PART == 8
+typedef gil::rgb16_image_t T0; typedef gil::gray32f_image_t T1; static const char* N0 = "rgb16"; static const char* N1 = "gray32f";
+#elif C13_PART == 9
+typedef gil::gray1_image_t T0; typedef gil::gray4_image_t T1; static const char* N0 = "gray1"; static const char* N1 = "gray4";
 #endif
-#if C13_PART == 6
-typedef gil::any_image<gil::gray16_image_t, gil::rgb16_image_t, gil::gray32f_image_t, gil::gray1_image_t, gil::gray4_image_t, gil::rgb8_image_t> any_t;
-enum { K_GRAY16 = 0, K_RGB16, K_GRAY32F, K_GRAY1, K_GRAY4, K_NOSCAN = 100 };
+// the any_image offers both native types of this part and one foreign alternative
+typedef gil::any_image<T0, T1, gil::cmyk8_image_t> any_t;
+enum { K_T0 = 0, K_T1 = 1, K_NOSCAN = 100 };
 static void build_files() {
-    add_tiff_type<gil::gray16_image_t>("gray16", K_GRAY16, K_GRAY16 + K_NOSCAN, 1000);
-    add_tiff_type<gil::rgb16_image_t>("rgb16", K_RGB16, K_RGB16 + K_NOSCAN, 2000);
-    add_tiff_type<gil::gray32f_image_t>("gray32f", K_GRAY32F, K_GRAY32F + K_NOSCAN, 3000);
-    add_tiff_type<gil::gray1_image_t>("gray1", K_GRAY1, K_GRAY1 + K_NOSCAN, 4000);
-    add_tiff_type<gil::gray4_image_t>("gray4", K_GRAY4, K_GRAY4 + K_NOSCAN, 5000);
+    add_tiff_type<T0>(N0, K_T0, K_T0 + K_NOSCAN, 1000);
+    add_tiff_type<T1>(N1, K_T1, K_T1 + K_NOSCAN, 2000);
+#if C13_PART == 6
+    if (vh::thorough()) add_fixture("tiff", "test.tif", "rgba8-strip-lzw", K_T0);
+#endif
 }
 static void run_file(entry_t const& e, int path, int sub) {
     bool scan = e.kind < K_NOSCAN;
     switch (e.kind % K_NOSCAN) {
-    case K_GRAY16: checks<tag_t, gil::gray16_image_t, gil::gray16_image_t, any_t>(FMT, e.f, 0, scan).run(path, sub); break;
-    case K_RGB16: checks<tag_t, gil::rgb16_image_t, gil::rgb16_image_t, any_t>(FMT, e.f, 1, scan).run(path, sub); break;
-    case K_GRAY32F: checks<tag_t, gil::gray32f_image_t, gil::gray32f_image_t, any_t>(FMT, e.f, 2, scan).run(path, sub); break;
-    case K_GRAY1: checks<tag_t, gil::gray1_image_t, gil::gray1_image_t, any_t>(FMT, e.f, 3, scan).run(path, sub); break;
-    case K_GRAY4: checks<tag_t, gil::gray4_image_t, gil::gray4_image_t, any_t>(FMT, e.f, 4, scan).run(path, sub); break;
+    case K_T0: checks<tag_t, T0, T0, any_t>(FMT, e.f, 0, scan).run(path, sub); break;
+    case K_T1: checks<tag_t, T1, T1, any_t>(FMT, e.f, 1, scan).run(path, sub); break;
     }
 }
 #endif
